@@ -135,6 +135,8 @@ func WriteFile(tempDir, path string, content []byte) (writeErr error) {
 	if err != nil {
 		return fmt.Errorf("failed to create temp file: %w", err)
 	}
+	defer verifHook("returned", tempFile.Name())
+	verifHook("created", tempFile.Name())
 	defer func() {
 		// remove the temp file in case of error
 		if writeErr != nil {
@@ -146,11 +148,13 @@ func WriteFile(tempDir, path string, content []byte) (writeErr error) {
 	if _, err := tempFile.Write(content); err != nil {
 		return fmt.Errorf("failed to write content to temp file: %w", err)
 	}
+	verifHook("written", tempFile.Name())
 
 	// close before moving
 	if err := tempFile.Close(); err != nil {
 		return fmt.Errorf("failed to close temp file: %w", err)
 	}
+	verifHook("closed", tempFile.Name())
 
 	// rename is atomic on UNIX-like platforms
 	return os.Rename(tempFile.Name(), path)
